@@ -30,6 +30,12 @@ Definition occupant (m : cmap) (k : str) : option content :=
       else m_get m (k ++ [slash])
   end.
 
+(* files.unixMode: permission bits plus setuid/setgid/sticky of a Go fs.FileMode as 04000/02000/01000 *)
+Definition unix_mode (m : N) : N :=
+  N.lor (N.land m 511)
+    (N.lor (if N.testbit m 23 then 2048 else 0)
+       (N.lor (if N.testbit m 22 then 1024 else 0) (if N.testbit m 20 then 512 else 0)))%N.
+
 (* ---------- Content.WithFileInfoDefaults ---------- *)
 Definition with_defaults (st : stats) (umask : N) (mt : Z) (c : content) : content :=
   let typ := if seqb (c_typ c) TNone then TFile else c_typ c in
@@ -45,7 +51,7 @@ Definition with_defaults (st : stats) (umask : N) (mt : Z) (c : content) : conte
       match stat_of st (c_src c) with
       | Some s =>
           (if is_tzero mtime1 then st_mtime s else mtime1,
-           if N.eqb mode1 0 then N.ldiff (st_mode s) umask else mode1,
+           if N.eqb mode1 0 then N.ldiff (unix_mode (st_mode s)) umask else mode1,
            st_size s)
       | None => (mtime1, mode1, fi_size f)
       end
@@ -179,7 +185,7 @@ Definition tree_item (fs_paths : list str) (st : stats) (umask : N) (mt : Z) (tr
         match w with
         | WDir _ md mtm =>
             let d := norm_dir destination in
-            ((if owned_by_fs fs_paths d then TImplicitDir else TDir), [], d, N.ldiff md umask, mtm)
+            ((if owned_by_fs fs_paths d then TImplicitDir else TDir), [], d, N.ldiff (unix_mode md) umask, mtm)
         | WLink _ target => (TSymlink, target, norm_file destination, 0%N, tzero)
         | WFile p dt => (TFile, p, norm_file destination, N.ldiff dt umask, tzero)
         end in
